@@ -49,6 +49,8 @@ for mp in sorted(glob.glob(R + "/seeded/*/*/meta.json")):
     c = m.get("check", {})
     res = c.get("result", "not run")
     det = str(c.get("detail", ""))[:140].replace("|", "/").replace("\n", " ")
+    if m.get("remark"):
+        res = "OK (" + str(m["remark"])[:300].replace("|", "/") + ")"
     out.append("| %s/%s | %s | %s%s |\n" % (pid, n, summ, res, (": " + det) if det else ""))
 open(R + "/DESIGN.md", "w").write("".join(out))
 print("DESIGN.md rebuilt:", len("".join(out).split("\n")), "lines")
